@@ -89,6 +89,13 @@ def run(ctx):
             # the molecule object
             kind, bag, _ = sl.decompose(n, Chem.MolFromSmiles(smi))
             results.append(('<Chem.Mol of %s>' % smi, kind, bag))
+            # a molecule object that already carries its hydrogens, handed in twice
+            mh = Chem.MolFromSmiles(smi)
+            if mh is not None:
+                mh = Chem.AddHs(mh)
+                for again in ('', ', second call'):
+                    kind, bag, _ = sl.decompose(n, mh)
+                    results.append(('<Chem.Mol of %s with explicit H%s>' % (smi, again), kind, bag))
             ctx.count('%s|%s' % (n, smi))
             ref = results[0]
             for s, kind, bag in results[1:]:
